@@ -1,12 +1,15 @@
 UNIT = dict(
-    sources={"i": "src/core/store/internal.rs", "o": "src/core/store/operations.rs", "e": "src/error.rs"},
+    sources={"i": "src/core/store/internal.rs", "o": "src/core/store/operations.rs", "s": "src/core/ttl_sweep.rs", "a": "src/core/store/atomic.rs", "e": "src/error.rs"},
     uses=["use std::sync::Arc;"],
-    prelude=["upd_opaque.rs"],
-    rules=["updmisc", "sig_upd"],
+    prelude=["upd_opaque.rs", "vecqueue.rs"],
+    rules=["updmisc", "forvec", "sig_upd"],
+    forvec=["candidates"],
     items=[
         ("error_enum", "e"),
         ("impl", "i", "FeoxStore", ["update_record_with_ttl", "update_record_with_ttl_bytes", "retire_expired_if_current"], {"header": "impl FeoxStore {"}),
         ("impl", "o", "FeoxStore", ["delete_with_timestamp", "insert_with_timestamp_and_ttl_internal", "insert_bytes_with_expiry"], {"header": "impl FeoxStore {"}),
+        ("impl", "a", "FeoxStore", ["replace_record_if_current"], {"header": "impl FeoxStore {"}),
+        ("fn", "s", "sample_and_expire_batch"),
     ],
     contracts="contracts.vc",
     spec=["spec.rs"],
